@@ -261,7 +261,10 @@ class Name(Kind):
         return list(self.names if self.names is not None else NAMES)
 
 
-CHARSTRS = [b"a", b"", b"a b", b'"', b"\\", b"\x00\x7f\x80\xff", b";(", b"x" * 255, b"\xc3\xa9", b"1\\0002"]
+CHARSTRS = [b"a", b"", b"a b", b'"', b"\\", b"\x00\x7f\x80\xff", b";(", b"x" * 255, b"\xc3\xa9", b"1\\0002",
+            # valid UTF-8 whose characters are not printable (C1 control, zero-width space, BOM) and a
+            # 4-octet character: the txt_is_utf8 style must still round-trip them
+            b"\xc2\x85", b"\xe2\x80\x8b", b"\xef\xbb\xbf", b"\xf0\x9f\x98\x80"]
 
 
 class CharStr(Kind):
